@@ -2,19 +2,24 @@ use derivative::Derivative;
 use regex::Regex;
 use std::borrow::Cow;
 use std::fmt::Debug;
+use std::collections::HashMap;
 use std::hash::Hash;
-use std::iter;
 use string_interner::backend::Backend;
 use string_interner::Symbol;
 
 #[derive(Default)]
 pub(crate) struct SpecialPrefixBackend<B: Backend> {
-    items: Vec<Option<Cow<'static, str>>>,
+    items: HashMap<usize, Cow<'static, str>>,
     inner: B,
 }
 
 lazy_static! {
-    static ref RE: Regex = Regex::new("^item([0-9]+)").unwrap();
+    // exactly `item<canonical decimal index>`: `item1x` and `item01` are ordinary identifiers
+    static ref RE: Regex = Regex::new("^item(0|[1-9][0-9]*)$").unwrap();
+}
+
+fn item_index(string: &str) -> Option<usize> {
+    RE.captures(string).and_then(|m| m[1].parse().ok())
 }
 
 #[derive(Derivative)]
@@ -48,20 +53,15 @@ impl<B: Backend> Backend for SpecialPrefixBackend<B> {
     fn with_capacity(cap: usize) -> Self {
         Self {
             inner: B::with_capacity(cap),
-            items: Vec::new(),
+            items: HashMap::new(),
         }
     }
 
     fn intern(&mut self, string: &str) -> Self::Symbol {
-        if let Some(m) = RE.captures(string) {
-            let idx: usize = m[1].parse().unwrap();
-            if self.items.len() <= idx {
-                self.items
-                    .extend(iter::repeat(None).take(idx - self.items.len()));
-                self.items.push(Some(Cow::Owned(format!("item{idx}"))));
-            } else if self.items[idx].is_none() {
-                self.items[idx] = Some(Cow::Owned(format!("item{idx}")));
-            }
+        if let Some(idx) = item_index(string) {
+            self.items
+                .entry(idx)
+                .or_insert_with(|| Cow::Owned(string.to_string()));
             SpecialPrefixSymbol::Item(idx)
         } else {
             SpecialPrefixSymbol::Regular(self.inner.intern(string))
@@ -69,13 +69,8 @@ impl<B: Backend> Backend for SpecialPrefixBackend<B> {
     }
 
     fn intern_static(&mut self, string: &'static str) -> Self::Symbol {
-        if let Some(m) = RE.captures(string) {
-            let idx: usize = m[1].parse().unwrap();
-            if self.items.len() <= idx || self.items[idx].is_none() {
-                self.items
-                    .extend(iter::repeat(None).take(idx - self.items.len() - 1));
-                self.items.push(Some(Cow::Borrowed(string)));
-            }
+        if let Some(idx) = item_index(string) {
+            self.items.entry(idx).or_insert(Cow::Borrowed(string));
             SpecialPrefixSymbol::Item(idx)
         } else {
             SpecialPrefixSymbol::Regular(self.inner.intern(string))
@@ -89,14 +84,14 @@ impl<B: Backend> Backend for SpecialPrefixBackend<B> {
 
     fn resolve(&self, symbol: Self::Symbol) -> Option<&str> {
         match symbol {
-            SpecialPrefixSymbol::Item(idx) => self.items.get(idx).unwrap().as_deref(),
+            SpecialPrefixSymbol::Item(idx) => self.items.get(&idx).map(|s| s.as_ref()),
             SpecialPrefixSymbol::Regular(sym) => self.inner.resolve(sym),
         }
     }
 
     unsafe fn resolve_unchecked(&self, symbol: Self::Symbol) -> &str {
         match symbol {
-            SpecialPrefixSymbol::Item(idx) => self.items.get(idx).unwrap().as_deref().unwrap(),
+            SpecialPrefixSymbol::Item(idx) => self.items.get(&idx).unwrap().as_ref(),
             SpecialPrefixSymbol::Regular(sym) => self.inner.resolve_unchecked(sym),
         }
     }
